@@ -11,6 +11,7 @@ import S3V.Driver.Args
 import S3V.Driver.Chunk
 import S3V.Driver.Download
 import S3V.Driver.Upload
+import S3V.Driver.M2
 
 namespace S3V.Driver
 
@@ -19,6 +20,7 @@ structure DState where
   defer : S3V.Defer.DQ Nat := S3V.Defer.DQ.init
   coord : S3V.Coord.Coord := {}
   chunk : ChunkD := {}
+  m2 : M2D := {}
 
 def DState.init : DState := {}
 
@@ -27,6 +29,7 @@ def step (st : DState) (line : String) : DState × String :=
   match toks with
   | ["reset"] => (DState.init, "ok")
   | "plan" :: rest => (st, planStep rest)
+  | "exec" :: _ | "xfer" :: _ | "fs" :: _ => let r := m2Step st.m2 toks; ({ st with m2 := r.1 }, r.2)
   | "up" :: rest => (st, upStep rest)
   | "dl" :: rest => (st, dlStep rest)
   | "chunk" :: _ | "agg" :: _ => let r := chunkStep st.chunk toks; ({ st with chunk := r.1 }, r.2)
